@@ -20,7 +20,7 @@ SEQ = {
     "C05": (["C05."], ["ham"]),
     "C06": (["C06."], ["render"]),
     "C07": (["C07."], ["phases", "core", "randsched", "eom", "eomdrift", "phasejump", "typestate"]),
-    "C08": (["C08."], ["template"]),
+    "C08": (["C08."], ["template", "mappable"]),
     "C09": (["C09."], ["core", "typestate", "randsched", "eom", "limits", "template", "rel"]),
     "C10": (["C10."], ["core", "randsched", "eom", "fine", "retarget", "phasejump", "oddmin"]),
     "C13": (["C13."], ["typestate", "eom", "template"]),
